@@ -108,7 +108,7 @@ func main() {
 	}
 	c.Traces(int64(total.Behaviours))
 	c.Count(int64(total.Steps), nontriv)
-	for _, need := range []string{"v2:proof!timing", "v2:expire!timing", "v2:rev2!timing", "v1:rev1!timing", "v1:prove1!timing", "v1:immature", "v2:immature", "v1:pay!era", "v2:pay!era"} {
+	for _, need := range []string{"v2:proof!timing", "v2:expire!timing", "v2:rev2!timing", "v1:rev1!timing", "v1:prove1!timing", "v1:immature", "v2:immature", "v2:immature!mislabel", "v1:pay!era", "v2:pay!era"} {
 		if rejected[need] == 0 {
 			c.Infra("vacuity: timing defect %s never rejected-with-accepted-control", need)
 		}
